@@ -256,6 +256,18 @@ Section External.
       else (f, ErrNoParent)
     end.
 
+  (* several init runs on the same target, in the order in which their exclusive creates take
+     effect (open(2) with O_CREAT|O_EXCL is atomic, so concurrent runs behave like one of their
+     sequential orders) *)
+  Fixpoint init_all (f : fs) (config_flag : str) (pkgs : list str) : fs * list outcome :=
+    match pkgs with
+    | [] => (f, [])
+    | pkg :: rest =>
+      let (f1, o) := init f config_flag pkg in
+      let (f2, os) := init_all f1 config_flag rest in
+      (f2, o :: os)
+    end.
+
   Definition load (content : str) : option rootcfg :=
     match parse content with Some t => load_tree t | None => None end.
 
